@@ -47,4 +47,8 @@ def native_helpers(LOG, params, spec):
         "upper": lambda s: s.upper(), "lower": lambda s: s.lower(),
         "time_value": time_value, "time_ok": time_ok,
         "enum_member": lambda param, r: r in param.lower().split(","),
+        "has_letter": lambda t: any(c.isalpha() for c in t),
+        "secs_rejects": lambda t: not time_ok((t if any(c.isalpha() for c in str(t)) else str(t) + "s").upper()),
+        "some_key_invalid": lambda: any(k not in ("known_a", "known_b") and not k.startswith("_")
+                                        for k in (params.get("config") or {})),
     }
